@@ -158,11 +158,22 @@ impl Property for C13 {
             name: "evr-nevra",
             cases: tier.pick(100_000, 2_000_000),
             strat: Arc::new(|| {
-                let comp = || prop_oneof![3 => "[0-9a-b.~^]{0,5}", 1 => Just(String::new()), 1 => Just("1".to_string())];
+                let comp = || prop_oneof![3 => "[0-9a-b.~^]{0,5}", 2 => "[0-9a-b.:-]{0,5}", 1 => Just(String::new()), 1 => Just("1".to_string())];
                 let epoch = || prop_oneof![2 => Just(String::new()), 1 => Just("0".to_string()), 2 => "[0-9]{1,3}"];
                 let nm = || prop_oneof![2 => Just("foo".to_string()), 1 => "[a-c0-9.]{0,4}"];
-                ((epoch(), comp(), comp()), (epoch(), comp(), comp()), (nm(), nm()), (nm(), nm()), 0u8..4)
+                ((epoch(), comp(), comp()), (epoch(), comp(), comp()), (nm(), nm()), (nm(), nm()), 0u8..6)
                     .prop_map(|(a, b, (name_a, name_b), (arch_a, arch_b), same)| {
+                        // two ways of cutting the same text into fields: "v-w" | "r"  versus  "v" | "w-r"
+                        if same == 4 {
+                            let a2 = (a.0.clone(), format!("{}-{}", a.1, b.1), a.2.clone());
+                            let b2 = (a.0.clone(), a.1.clone(), format!("{}-{}", b.1, a.2));
+                            return C13Case::Evr { a: a2, b: b2, name_a: name_a.clone(), name_b: name_a, arch_a: arch_a.clone(), arch_b: arch_a };
+                        }
+                        if same == 5 {
+                            let a2 = (format!("{}:{}", a.0, a.1), b.1.clone(), a.2.clone());
+                            let b2 = (a.0.clone(), format!("{}:{}", a.1, b.1), a.2.clone());
+                            return C13Case::Evr { a: a2, b: b2, name_a: name_a.clone(), name_b: name_a, arch_a: arch_a.clone(), arch_b: arch_a };
+                        }
                         // bias towards equal components so that later components decide
                         let mut b = b;
                         if same >= 1 { b.1 = a.1.clone(); }
@@ -319,7 +330,8 @@ impl C13 {
                     }
                 }
                 // string entry point (components here contain neither ':' nor '-')
-                if !a.1.contains('-') && !b.1.contains('-') && !a.1.contains(':') && !b.1.contains(':') {
+                let plain = |e: &(String, String, String)| !e.0.contains([':', '-']) && !e.1.contains([':', '-']) && !e.2.contains(':');
+                if plain(a) && plain(b) {
                     let f = |e: &(String, String, String)| if e.0.is_empty() { format!("{}-{}", e.1, e.2) } else { format!("{}:{}-{}", e.0, e.1, e.2) };
                     let viastr = rpm::rpm_evr_compare(&f(a), &f(b));
                     if viastr != want {
